@@ -170,9 +170,14 @@ func par1Cycle(r *Run, hostile bool) {
 		r.Violate("create-failed", "PAR1 Create wrote %d files, expected index + %d volumes", len(w.Created), w.R)
 	}
 
-	if !hostile && t.Bool(1, 8, "foreign-writer") {
-		// the same set as another PAR1 client would have written it
+	foreign := false
+	if t.Bool(1, 8, "foreign-writer") {
+		// the same set as another PAR1 client would have written it (in
+		// the write-discipline worlds too, since wave u: the entries that
+		// are listed but not saved are bystanders Repair must not touch;
+		// such a run plants no hostile volume besides)
 		w.RewriteAsForeignPar1(r)
+		foreign = true
 	}
 
 	if t.Bool(1, 3, "verify-clean") {
@@ -228,7 +233,7 @@ func par1Cycle(r *Run, hostile bool) {
 		}
 	}
 	hostileKind := ""
-	if hostile && t.Bool(1, 2, "hostile") {
+	if hostile && !foreign && t.Bool(1, 2, "hostile") {
 		hostileKind = w.hostilePar1(r)
 	}
 	tr := w.TruthPar1()
